@@ -100,6 +100,21 @@ def lit_val(v) -> str:
         else:
             raise Refused(f"enum value {val!r}")
         return f"(.obj {lean_str(type(v).__name__)} (.field \"name\" {lit_val(v.name)} (.field \"value\" {vv} .fnil)))"
+    if isinstance(v, tuple):
+        inner = ".nil"
+        for x in reversed(v):
+            inner = f"(.cons {lit_val(x)} {inner})"
+        return f"(.tup {inner})"
+    if isinstance(v, list):
+        inner = ".nil"
+        for x in reversed(v):
+            inner = f"(.cons {lit_val(x)} {inner})"
+        return f"(.list {inner})"
+    if isinstance(v, dict):
+        inner = ".nil"
+        for k, x in reversed(list(v.items())):
+            inner = f"(.cons (.tup (.cons {lit_val(k)} (.cons {lit_val(x)} .nil))) {inner})"
+        return f"(.dict {inner})"
     raise Refused(f"constant {v!r}")
 
 
@@ -157,7 +172,7 @@ class Fn:
             elif isinstance(n, ast.NamedExpr):
                 raise Refused("walrus")
             elif isinstance(n, (ast.With, ast.Global, ast.Nonlocal, ast.Delete, ast.Yield, ast.YieldFrom, ast.Await,
-                                ast.SetComp, ast.DictComp, ast.Match)):
+                                ast.SetComp, ast.Match)):
                 raise Refused(type(n).__name__)
             for t in tg:
                 for m in ast.walk(t):
@@ -186,6 +201,7 @@ class Fn:
             self.params += used
         self.uses_it = False
         self.uses_log = False
+        self.consts = []   # (name, Lean value, source text): non-scalar constants folded at translation time, emitted as definitions
         # locals that only ever hold a fresh map-of-lists (so that `x[k].append(v)` has the meaning `appendAt` gives it)
         self.listmaps = set()
         for n in own_nodes(self.fn):
@@ -262,6 +278,29 @@ class Fn:
         return False
 
     # ------------------------------------------------------------------ expressions
+    def _plain_const(self, v, depth=0) -> bool:
+        if isinstance(v, (str, int, type(None), enum.Enum)):
+            return True
+        if depth < 3 and isinstance(v, (tuple, list)):
+            # (a class-level list is read as a constant: that no code of the package writes a class-level container is the inventory
+            # obligation `gen_state_ok` of C17)
+            return all(self._plain_const(x, depth + 1) for x in v)
+        if depth < 3 and isinstance(v, dict):
+            return all(self._plain_const(k, depth + 1) and self._plain_const(x, depth + 1) for k, x in v.items())
+        return False
+
+    def const(self, hint, val, src) -> str:
+        if isinstance(val, (str, int, type(None), enum.Enum)):
+            return f"(.lit {lit_val(val)})"
+        name = "K_" + "".join(c if c.isalnum() else "_" for c in hint).strip("_")
+        if name in [c[0] for c in self.consts]:
+            if [c for c in self.consts if c[0] == name][0][1] != lit_val(val):
+                name += str(len(self.consts))
+            else:
+                return f"(.lit {self.lean}{name})"
+        self.consts.append((name, lit_val(val), src))
+        return f"(.lit {self.lean}{name})"
+
     def is_local(self, name) -> bool:
         return name in self.params or name in self.locals
 
@@ -292,7 +331,14 @@ class Fn:
                     return f"(.lit {lit_val(obj)})"
                 if isinstance(obj, int) and not isinstance(obj, bool):
                     return f"(.lit {lit_val(obj)})"
+                if isinstance(obj, str):
+                    return f"(.lit {lit_val(obj)})"   # a class-level string constant of another class (`Metadata.header_tag`): its live value
                 raise Refused(f"global {d}")
+            if d is not None and self.owner is not None and self.first_kind == "classmethod" and len(d.split(".")) == 2 \
+                    and d.split(".")[0] == self.first_param and d.split(".")[1] in vars(self.owner) \
+                    and self._plain_const(vars(self.owner)[d.split(".")[1]]):
+                # `cls.<constant>` in a classmethod: the live value of the owning class's constant (a subclass overriding it is not modelled)
+                return self.const(d.split(".")[1], vars(self.owner)[d.split(".")[1]], d)
             return f"(.attr {self.expr(node.value)} {lean_str(node.attr)})"
         if isinstance(node, ast.Subscript) and isinstance(node.value, ast.Name) and not self.is_local(node.value.id) \
                 and isinstance(self.glob.get(node.value.id), dict) and not isinstance(node.slice, ast.Slice):
@@ -344,6 +390,17 @@ class Fn:
             return self.gen("comp", node)
         if isinstance(node, ast.Dict) and not node.keys:
             return "(.lit (.dict .nil))"
+        if isinstance(node, ast.DictComp):
+            # a dict comprehension that reads nothing but module-level names (enum classes, itertools): a constant of the module,
+            # folded to its live value at translation time
+            bound = {m.id for g in node.generators for m in ast.walk(g.target) if isinstance(m, ast.Name)}
+            for m in ast.walk(node):
+                if isinstance(m, ast.Name) and isinstance(m.ctx, ast.Load) and m.id not in bound and self.is_local(m.id):
+                    raise Refused("dict comprehension over locals")
+            val = eval(compile(ast.Expression(node), "<dictcomp>", "eval"), dict(self.glob))  # noqa: S307
+            if not self._plain_const(val):
+                raise Refused("dict comprehension value")
+            return self.const("table", val, ast.unparse(node)[:100])
         raise Refused(f"expression {type(node).__name__}: {ast.unparse(node)[:60]}")
 
     def gen(self, form, node) -> str:
@@ -433,6 +490,8 @@ class Fn:
             # `cls.<class constant>.<method>(…)` in a classmethod: the external call named after the owning class (no receiver)
             name = self.owner.__name__ + "." + ".".join(f.split(".")[1:])
             return f"(.call {lean_str(name)} {self.spine([self.expr(a) for a in args])})"
+        if isinstance(node.func, ast.Attribute) and node.func.attr == "items" and not args and not kws:
+            return f"(.items {self.expr(node.func.value)})"   # of a dict (anything else is `unsupported` in the embedding)
         if isinstance(node.func, ast.Attribute):
             # a method call on a value: the receiver is the first argument
             name = "." + node.func.attr + ("(" + ",".join(k.arg + "=" for k in kws) + ")" if kws else "")
@@ -474,6 +533,13 @@ class Fn:
             if isinstance(t, ast.Subscript) and isinstance(t.value, ast.Name) and self.is_local(t.value.id) \
                     and not isinstance(t.slice, ast.Slice):
                 return f"(.setIdx {lean_str(t.value.id)} {self.expr(t.slice)} {self.expr(st.value)})"
+            if isinstance(t, ast.Subscript) and not isinstance(t.slice, ast.Slice) and isinstance(t.value, ast.Call) \
+                    and isinstance(t.value.func, ast.Attribute) and t.value.func.attr == "setdefault" and isinstance(t.value.func.value, ast.Name) \
+                    and self.is_local(t.value.func.value.id) and len(t.value.args) == 2 and not t.value.keywords \
+                    and isinstance(t.value.args[1], ast.Call) and dotted(t.value.args[1].func) == "dict" and not t.value.args[1].args \
+                    and not t.value.args[1].keywords and not self.is_local("dict"):
+                # `x.setdefault(k, dict())[k2] = e` on a local dict of dicts (the inner dict is fresh, so nothing else sees it)
+                return f"(.setDefaultIdx {lean_str(t.value.func.value.id)} {self.expr(t.value.args[0])} {self.expr(t.slice)} {self.expr(st.value)})"
             raise Refused("assignment target " + ast.unparse(t)[:40])
         if isinstance(st, ast.AugAssign) and isinstance(st.target, ast.Name) and type(st.op).__name__ in BIN:
             if st.target.id in self.mutated:
@@ -549,6 +615,7 @@ FUNCTIONS = [
     ("lastNoteEndTimestamp", "instrument", "InstrumentTrack.last_note_end_timestamp"),
     ("notesPerSecond", "chart", "Chart.notes_per_second"),
     ("parseAllLinesForField", "metadata", "Metadata.from_chart_lines.parse_all_lines_for_field"),
+    ("fromFile", "chart", "Chart.from_file"),
 ]
 
 
@@ -560,10 +627,14 @@ def gen_imp() -> str:
     for lean, mod, qual in FUNCTIONS:
         try:
             f = Fn(mod, qual)
+            f.lean = lean
             body = f.block(f.fn.body)
             if f.uses_log:
                 body = f"(.seq (.assign \"$log\" (.mkList .enil))\n {body})"  # the warnings of this call, in order
             locs = f.locals + (["$it"] if f.uses_it else []) + (["$log"] if f.uses_log else [])
+            for cname, cval, csrc in f.consts:
+                L.append(f"/-- constant of `chartparse.{mod}.{qual}`, folded to its live value: `{csrc}` -/")
+                L.append(f"def {lean}{cname} : Val :=\n {cval}\n")
             L.append(f"/-- `chartparse.{mod}.{qual}` -/")
             L.append(f"def {lean}Params : List String := [{', '.join(lean_str(p) for p in f.params)}]")
             L.append(f"def {lean}Locals : List String := [{', '.join(lean_str(p) for p in locs)}]")
